@@ -64,7 +64,7 @@ def query (L : Layout) (q : String) : Option String :=
         | .error _ => "err"
         | .ok none => "none"
         | .ok (some b) => showBytes b ++ ".")
-  | ["t", e, acc] => do let e ← hex? e; pure (listStr (allOfType L e (acc == "1")))
+  | ["t", e, acc] => do let e ← hex? e; pure (listStr ((allOfType L e (acc == "1")).map Str.toUpper))
   | ["p", p, acc] => do let p ← hex? p; pure (listStr (allMatching L (matchPat p) (acc == "1")))
   | ["a", n] => do
       let n ← hex? n
